@@ -1,9 +1,28 @@
 (* C04 — No silent truncation: a message ends cleanly only if it was received completely.
    Statements only; proofs in Proofs/ReaderP.v. *)
 From Coq Require Import List NArith ZArith Bool.
-From WS Require Import Base.Words Gen.Consts Model.Mask Model.Frame Model.Proto Model.RefDecoder Model.Reader Proofs.ReaderP.
+From WS Require Import Base.Words Gen.Consts Model.Mask Model.Frame Model.Proto Model.RefDecoder Model.Reader Model.Script Proofs.ReaderP Proofs.ReaderCutP.
 Import ListNotations.
 Open Scope N_scope.
+
+(* EVERY CRASH POINT.  The transport delivers only the first [cut] bytes of a valid stream (any messages, fragmentation,
+   control frames, both roles) and then ends, by EOF or by failure — at ANY byte offset: inside a frame header, inside a
+   control frame, between fragments, inside a payload.  Then, for every sequence of positive read-buffer sizes:
+   every message completely received is delivered intact, in order, each with a clean end; exactly ONE failing call follows:
+   either the Reader call fails with the transport's error, or it succeeds and the read of that message fails with the
+   transport's error after handing the caller a true PREFIX of the message's payload.  A clean end is never reported for a
+   message that was not received completely.  (Uncompressed messages; compressed ones are covered by the cut sweeps.) *)
+Theorem C04_no_silent_truncation : forall cfg inflate ms sizes cut e,
+  Forall wf_smsg ms -> length sizes = length ms -> Forall (fun n => 0 < n)%nat sizes -> e <> EOpen ->
+  let masked := role_eqb (rc_role cfg) Server in
+  let stream := enc_script masked ms in
+  (cut < length stream)%nat ->
+  let r := run cfg inflate (-1)%Z (firstn cut stream) e (read_ops sizes) in
+  exists k m rest_ms, ms = firstn k ms ++ m :: rest_ms /\ length (firstn k ms) = k /\
+    (fst r = expected_obs (firstn k ms) ++ [ObReader (inr (end_err_of e))]
+     \/ exists d, fst r = expected_obs (firstn k ms) ++ [ObReader (inl (sm_typ m)); ObMsg d (Some (end_err_of e))] /\ is_prefix d (sm_payload m)).
+Proof. exact reader_cut_stream. Qed.
+Print Assumptions C04_no_silent_truncation.
 
 (* The payload stream of a message reports its end ONLY in a state where the final frame (fin) has been consumed
    to its last byte — for every state, input, fuel and buffer size. *)
